@@ -4,3 +4,4 @@ from . import c_utils       # noqa
 from . import c_version     # noqa
 from . import c_loader      # noqa
 from . import c_read        # noqa
+from . import c_header      # noqa
